@@ -1,7 +1,24 @@
 (* Props/C02.v — allocation-free validators accept exactly what their reference
    parsers accept. *)
 From Verif Require Import Base.GoPrim Base.Strings Gen.Consts Gen.BytePreds Std.Netip Model.Ip Model.Addr
-  Proofs.AddrProofs Proofs.IpProofs.
+  Proofs.AddrProofs Proofs.IpProofs Proofs.IpEquiv.
+
+(* IsValidIPString(s) iff netip.ParseAddr(s) succeeds — for every byte string.  The proof
+   relates the two algorithms step by step: the dotted-quad branch through the canonical
+   spelling both accept (valid_ipv4_iff / parse_ipv4_iff), the IPv6 branch by a simulation
+   of the validator's field loop and parseIPv6's loop (v6_sim: same field count, same
+   ellipsis state, same verdict at every exit), the zone split, and the dispatch on the
+   first '.' / ':' including the bound on significant bytes (dispatch_sig). *)
+Theorem C02_ip_string : forall s, is_valid_ip_string s = true <-> parse_addr s <> None.
+Proof. exact c02_ip_string. Qed.
+
+(* IsValidIPPortString(s) iff netip.ParseAddrPort(s) succeeds — for every byte string *)
+Theorem C02_ip_port_string : forall s, is_valid_ip_port_string s = true <-> parse_addr_port s <> None.
+Proof. exact c02_ip_port_string. Qed.
+
+(* the dotted-quad validators accept exactly the canonical spelling of four octets *)
+Theorem C02_ipv4_string : forall s, is_valid_ipv4_string s = true <-> parse_ipv4 s <> None.
+Proof. exact ipv4_equiv. Qed.
 
 (* IsValidHostname(s) iff ValidateHostname(s) == nil, for every answer of idna.ToASCII *)
 Theorem C02_hostname : forall a, is_valid_hostname a = true <-> validate_hostname a = Ret None.
@@ -30,6 +47,9 @@ Example C02_examples :
   parse_addr_port [91;58;58;49;93;58;56;48] = Some (P6 [0;0;0;0;0;0;0;0;0;0;0;0;0;0;0;1] [], 80).
 Proof. vm_compute. repeat split; reflexivity. Qed.
 
+Print Assumptions C02_ip_string.
+Print Assumptions C02_ip_port_string.
+Print Assumptions C02_ipv4_string.
 Print Assumptions C02_hostname.
 Print Assumptions C02_label.
 Print Assumptions C02_port.
